@@ -14,6 +14,9 @@ def parseSmsOp (t : String) : Option Sms.Op :=
     let rest := (t.drop 1).toString
     match (t.take 1).toString with
     | "r" => rest.toNat?.map .resolve
+    | "h" =>
+      -- `h<bits>`: resolveMatch whose matching handlers answer, in visiting order, 1 = took / 0 = refused
+      (rest.toList.mapM fun c => if c = '1' then some true else if c = '0' then some false else none).map .resolveH
     | "a" => rest.toNat?.map .accept
     | "c" => rest.toNat?.map .close
     | _ => none
